@@ -65,7 +65,8 @@ KnownState(H, c) == "C20-1" \in Known /\ KnownFinding_C20_1(H, c)
 \* every head references a known final round of another chain; durable and in-memory links agree
 Inv == \A c \in Chains :
           /\ KnownFinalOther(G, c, G.ext[c]) \/ KnownState(G, c)
-          /\ G.dl[c] = G.ml[c]
+          /\ \/ G.dl[c] = G.ml[c]
+             \/ "C20-1" \in Known /\ \A x \in Chains : G.dl[c][x] >= G.ml[c][x]   \* aftermath of C20-1
 
 StepProp == [][ \/ StepOK20(G, last'.o, last'.res, TRUE, G')
                 \/ (last'.res = "ok" /\ KnownState(G', last'.o.c)
